@@ -90,8 +90,14 @@ def invoke(fn, names_, args, environment, pos):
             else:
                 if argvalue.isSet():
                     spreadvalues = argvalue.getSortedItems()
-                else:
+                elif argvalue.isList():
                     spreadvalues = argvalue.value
+                else:
+                    raise CklRuntimeError(
+                        ValueString("ERROR"),
+                        f"Cannot spread {argvalue.type()}",
+                        pos,
+                    )
                 for value in spreadvalues:
                     values.append(value)
                     names.append(None)
@@ -1215,8 +1221,14 @@ class NodeList:
                     spreadvalues = lst.getSortedItems()
                 elif lst.isMap():
                     spreadvalues = lst.getSortedKeys()
-                else:
+                elif lst.isList():
                     spreadvalues = lst.value
+                else:
+                    raise CklRuntimeError(
+                        ValueString("ERROR"),
+                        f"Cannot spread {lst.type()}",
+                        self.pos,
+                    )
                 for value in spreadvalues:
                     result.addItem(value)
             else:
